@@ -58,6 +58,8 @@ pub enum Sym {
     /// while the station is offline (the only time the documentation allows it) the user changes the list
     /// of applications: live list + scanner through poll_multi() <-> the live list alone through poll()
     SwitchApps,
+    /// the host does not poll the station for this long (one gap between two polls), then polls it once
+    NoPoll(WaitLen),
 }
 
 impl Sym {
@@ -71,6 +73,7 @@ impl Sym {
             Sym::SetOffline => "set_offline".into(),
             Sym::SetOnline => "set_online".into(),
             Sym::SwitchApps => "switch_apps".into(),
+            Sym::NoPoll(w) => format!("NoPoll[{:?}]", w),
         }
     }
     pub fn to_json(&self) -> Value {
@@ -83,6 +86,7 @@ impl Sym {
             Sym::SetOffline => json!("set_offline"),
             Sym::SetOnline => json!("set_online"),
             Sym::SwitchApps => json!("switch_apps"),
+            Sym::NoPoll(w) => json!({"nopoll": format!("{:?}", w)}),
         }
     }
     pub fn from_json(v: &Value) -> Sym {
@@ -109,6 +113,13 @@ impl Sym {
         }
         if let Some(b) = v["burst"].as_array() {
             return Sym::Burst(b.iter().map(|x| unhex(x.as_str().unwrap())).collect());
+        }
+        if let Some(w) = v["nopoll"].as_str() {
+            return Sym::NoPoll(match w {
+                "HalfSlot" => WaitLen::HalfSlot,
+                "SlotPlus" => WaitLen::SlotPlus,
+                _ => WaitLen::TimeoutPlus,
+            });
         }
         match v["wait"].as_str().unwrap() {
             "HalfSlot" => Sym::Wait(WaitLen::HalfSlot),
@@ -704,6 +715,16 @@ impl W2State {
                         return true;
                     }
                 }
+                true
+            }
+            Sym::NoPoll(w) => {
+                let d = match w {
+                    WaitLen::HalfSlot => self.slot_us / 2,
+                    WaitLen::SlotPlus => self.slot_us + self.p_us,
+                    WaitLen::TimeoutPlus => self.slot_us * (6 + 2 * self.cfg.ts as i64) + 2 * self.p_us,
+                };
+                self.now += d;
+                self.poll();
                 true
             }
             Sym::SetOffline => {
